@@ -24,7 +24,7 @@ vm_harness! {
 }
 vm_harness! {
     #[kani::unwind(9)]
-    fn c01_reg_store_all_offsets() {
+    fn x_reg_store_all_offsets() {
         let n: i16 = kani::any();
         kani::assume(n >= -16384 && n <= 16383);
         let want: usize = kani::any();
